@@ -475,3 +475,49 @@ def replay_store_tf(obligation=None, model=None, meta=None):
 replay_rerun_after_alter.real_system = True       # drives the real program on stock inputs: a crash inside repository code is a confirmed failure
 
 replay_store_tf.real_system = True       # drives the real program on stock inputs: a crash inside repository code is a confirmed failure
+
+
+def system_setup(pid):
+    """System.setup: refuses a second call; otherwise runs its phases in the order the later ones rely on (back references, list -> array,
+    external parameters, device finders, per-unit coefficients, routine flags, addresses, names, sparsity pattern, adders / setters,
+    connectivity manager) and marks the system as set up IF AND ONLY IF the external parameters could all be linked; a failure is
+    returned as False and raises the exit code by one -- the flag that gates every routine is never set on a failed setup."""
+    ORDER = ['collect_ref', '_list2array', 'link_ext_param', 'find_devices', 'calc_pu_coeff', 'store_existing', 'set_address', 'set_dae_names',
+             'store_sparse_pattern', 'store_adder_setter', 'conn.init']
+    LINKED = fresh('all_external_parameters_linked', Bo)
+
+    def rec(tag, ret=None):
+        def h(ex, st, args, kw, node):
+            st.ghost['order'] = st.ghost['order'] + [tag]
+            return ret
+        return h
+
+    def post(old, new, res):
+        was = old.z('self.is_setup')
+        r = res if z3.is_expr(res) else z3.BoolVal(bool(res))
+        e0, e1 = old.z('self.exit_code'), new.z('self.exit_code')
+        done = z3.BoolVal(new.st.ghost['order'] == ORDER)
+        return z3.If(was, z3.And(z3.Not(r), new.z('self.is_setup'), e1 == e0, z3.BoolVal(new.st.ghost['order'] == [])),
+                     z3.And(done, r == LINKED, new.z('self.is_setup') == LINKED, e1 == z3.If(LINKED, e0, e0 + 1)))
+    calls = {'elapsed': lambda ex, st, a, k, n: (NR(fresh('t', R)), 's'), 'self.link_ext_param': rec('link_ext_param', LINKED), 'self.conn.init': rec('conn.init')}
+    for nm in ORDER:
+        if nm not in ('link_ext_param', 'conn.init'):
+            calls['self.' + nm] = rec(nm)
+    c = Contract(FS, 'System.setup', pid=pid, params={'self': TObj()}, schema={'self.is_setup': TBool(), 'self.exit_code': TInt(), 'self.exist.pflow': TOpaque('Models')},
+                 ghost_init={'order': []}, calls=calls, globals_={'elapsed': Func('elapsed')},
+                 ensures=[('second-call-refused;phases-in-order;is_setup<=>external-parameters-linked;failure=>False-and-exit-code+1', post)],
+                 modifies=['self.is_setup', 'self.exit_code'])
+    c.merge = False
+    return c
+
+
+def replay_failures(obligation=None, model=None, meta=None):
+    """native: infeasible / inconsistent inputs are reported as failures end to end (contracts/bounded_failure.py)"""
+    from contracts import bounded_failure
+    n, bad = bounded_failure.run()
+    if bad:
+        return {'confirmed': True, 'inputs': bad, 'observed': bad.get('observed'), 'native_cmd': 'contracts/bounded_failure.py'}
+    return {'confirmed': False, 'tried': n}
+
+
+replay_failures.real_system = True
